@@ -674,8 +674,19 @@ def split_layout(proj):
     return len(set(files)) == len(files)
 
 
-def covered(proj, ops, plan):
+def no_driver_callee(proj, cfg):
+    home = c22.home_of(proj)
+    drivers = driver_names(cfg)
+    called = {c for r in proj['routines'] for c in r['calls']}
+    mixed = any(home[d] is not None and any(home[r['name']] == home[d] and r['name'] not in drivers
+                                            for r in proj['routines']) for d in drivers if d in home)
+    return not (drivers & called) and not mixed
+
+
+def covered(proj, ops, plan, cfg=None):
     """Lean: LokiModel.C25.Covered"""
+    if cfg is not None and not no_driver_callee(proj, cfg):
+        return False
     def lower(o):
         return all(s is None or s == s.lower() for s in o[1:] if not isinstance(s, bool))
     dep_last = all(o[0] != 'dep' for o in ops[:-1])
@@ -825,14 +836,14 @@ class C25(Prop):
             for plan in (True, False):
                 req = make_request(proj, cfg, ops, plan)
                 sig = '-'.join(o[0] for o in ops)
-                yield Case(req, stream=('plan:' if plan else 'seq:') + ('covered' if covered(proj, ops, plan) else 'uncovered'),
+                yield Case(req, stream=('plan:' if plan else 'seq:') + ('covered' if covered(proj, ops, plan, cfg) else 'uncovered'),
                            nontrivial=len(ops) >= 1 and not plan, key=dumps(req))
 
     def impl(self, req):
         res, (proj, cfg, ops, plan) = run_case(req)
         if res['exc'] and res['exc'][0] == 'init':
             return [A('error'), A('init')]
-        if not covered(proj, ops, plan):
+        if not covered(proj, ops, plan, cfg):
             return [A('uncovered')]
         return response(res)
 
